@@ -57,6 +57,20 @@ def check(F, rep):
         e = copy_sources(f, op_base(fld["ecn"])) if op_base(fld["ecn"]) is not None else set()
         rep.ob("ecn", e == {("arg", 1, ("ecn",))}, site(f, b), "the returned batch keeps self.ecn: %s" % sorted(map(str, e)), skey(F, f, "ecn"))
         seg_src[b] = (fld["segment_size"], c)
+    def is_seg(o):
+        l = op_base(o)
+        for _ in range(6):
+            if l is None:
+                return False
+            x = copy_sources(f, l)
+            if x and all(y[0] == "arg" and y[1] == 1 and tuple(y[2])[:1] == ("segment_size",) for y in x):
+                return True
+            dc_ = def_call(f, l)
+            if dc_ is None or not re.search(r"convert::(From::from|Into::into)$|NonZero.*::get$", callee_names(dc_[1])[0]):
+                return False
+            l = op_base(dc_[1]["args"][0])
+        return False
+
     # ---- bound
     if splits:
         sb, st = splits[0]
@@ -93,8 +107,8 @@ def check(F, rep):
                 x0 = copy_sources(f, op_base(m["a"])) if op_base(m["a"]) is not None else set()
                 x1 = copy_sources(f, op_base(m["b"])) if op_base(m["b"]) is not None else set()
                 n_ = lambda x: x == {("arg", 2, ())}
-                s_ = lambda x: bool(x) and all((y[0] == "arg" and y[1] == 1 and tuple(y[2])[:1] == ("segment_size",)) or (y[0] == "call" and re.search(r"convert::(From::from|Into::into)$", y[1])) for y in x)
-                return (n_(x0) and s_(x1)) or (n_(x1) and s_(x0))
+
+                return (n_(x0) and is_seg(m["b"])) or (n_(x1) and is_seg(m["a"]))
             okb = (is_len_contents(a0) and is_n_times_seg(a1)) or (is_len_contents(a1) and is_n_times_seg(a0))
             why = "min operands: len(self.contents) %s, num_segments*segment_size %s" % (is_len_contents(a0) or is_len_contents(a1), is_n_times_seg(a0) or is_n_times_seg(a1))
         rep.ob("bound", okb, site(f, sb), "split_to(min(num_segments * segment_size, self.contents.len())): %s" % why, skey(F, f, "split-len"))
@@ -104,26 +118,25 @@ def check(F, rep):
             if n_ == "usize_segment_size" and not pl.get("p"):
                 segl = pl["l"]
 
-        def is_seg(o):
-            l = op_base(o)
-            if l is None:
-                return False
-            x = copy_sources(f, l, transparent=("core::convert::From::from", "core::convert::Into::into", "core::num::nonzero::NonZero::get"))
-            return bool(x) and all(y[0] == "arg" and y[1] == 1 and tuple(y[2])[:1] == ("segment_size",) for y in x)
-
         def len_of(o):
             d2 = def_call(f, op_base(o)) if op_base(o) is not None else None
             if d2 is None or not call_matches(d2[1], r"Bytes::len$"):
                 return None
             if self_field(d2[1]["args"][0]) == "contents":
-                return "rest" if sb in f.reachable(0) and d2[0] in f.reachable(st["t"]) else "before"
+                return "rest" if (d2[0] in f.reachable(st["t"]) and f.dominates(sb, d2[0])) else "before"
             tgt = arg_ref_target(f, d2[1]["args"][0])
             if tgt is not None and copy_sources(f, tgt) == {("call", "bytes::bytes::Bytes::split_to", ())}:
                 return "taken"
             return None
 
-        def mk_value_of(n_gt1, rel_taken, rel_rest):
-            """rel_* in lt/eq/gt: len ? segment_size"""
+        def mk_value_of(n_gt1, rel_whole, rel_rest):
+            """rel_* in lt/eq/gt: len ? segment_size.  whole = self.contents before the split;
+            taken = min(n * seg, whole): for n = 1 it is min(seg, whole), for n > 1 it
+            exceeds seg exactly when whole does."""
+            if n_gt1:
+                rel_taken = rel_whole
+            else:
+                rel_taken = "lt" if rel_whole == "lt" else "eq"
             def value_of(a):
                 if a.kind == "cmp":
                     x, y = a.args
@@ -140,14 +153,27 @@ def check(F, rep):
                             return {"Gt": c > nval, "Ge": c >= nval, "Lt": c < nval, "Le": c <= nval, "Eq": c == nval, "Ne": c != nval}[op]
                     for p_, q_, flip in ((x, y, False), (y, x, True)):
                         which = len_of(p_)
-                        if which in ("taken", "rest") and is_seg(q_):
-                            rel = rel_taken if which == "taken" else rel_rest
+                        if which in ("taken", "rest", "before") and is_seg(q_):
+                            rel = rel_taken if which == "taken" else (rel_rest if which == "rest" else rel_whole)
                             # value of `len <op> seg` (flip: `seg <op> len`)
                             o2 = {"Lt": "Gt", "Gt": "Lt", "Le": "Ge", "Ge": "Le"}.get(op, op) if flip else op
                             return {"Lt": rel == "lt", "Le": rel in ("lt", "eq"), "Gt": rel == "gt", "Ge": rel in ("gt", "eq"), "Eq": rel == "eq", "Ne": rel != "eq"}[o2]
                     raise Unsupported("comparison %s at bb%d is not between a length and the segment size / n and 1" % (op, a.bb))
+                if a.kind == "switch":
+                    l = op_local(a.args[0])
+                    for st_ in f.blocks[a.bb]["s"]:
+                        if st_["k"] == "a" and st_["lhs"]["l"] == l and st_["rv"]["k"] == "discr":
+                            names = [e[2] for e in resolve_place(f, st_["rv"]["p"]).get("p", []) if e[0] == "f"]
+                            if names[-1:] == ["segment_size"]:
+                                vals = [int(z) for z, _ in f.blocks[a.bb]["t"]["targets"]]
+                                return 1 if 1 in vals else "otherwise"
+                    raise Unsupported("branch at bb%d" % a.bb)
                 raise Unsupported("%s %s at bb%d" % (a.kind, a.name, a.bb))
+            value_of.rel_taken = rel_taken
             return value_of
+        def is_seg_payload(o):
+            x = copy_sources(f, op_base(o)) if op_base(o) is not None else set()
+            return bool(x) and all(y[0] == "arg" and y[1] == 1 and tuple(y[2])[:1] == ("segment_size",) for y in x)
         # ---- segment size of the result (batch path)
         batch = [(b, fld, c) for b, (fld, c) in seg_src.items() if any(x[1].endswith("split_to") for x in c)]
         single = [(b, fld, c) for b, (fld, c) in seg_src.items() if any(x[1].endswith("mem::take") for x in c)]
@@ -155,35 +181,56 @@ def check(F, rep):
             x = copy_sources(f, op_base(fld)) if op_base(fld) is not None else set()
             rep.ob("result-seg", x == {("agg", "core::option::Option::None")}, site(f, b), "without a segment size the whole (single-datagram) batch is returned with segment_size None", skey(F, f, "single-none"))
         for b, fld, c in batch:
-            dc = def_call(f, op_base(fld)) if op_base(fld) is not None else None
-            ok = dc is not None and call_matches(dc[1], r"bool::then_some$|<impl bool>::then_some$|then_some$")
-            if not ok:
-                rep.ob("result-seg", False, site(f, b), "the result's segment_size is not `flag.then_some(segment_size)` (unrecognised idiom, fails closed)", skey(F, f, "batch-flag"))
+            fl_local = op_base(fld)
+            dc = def_call(f, fl_local) if fl_local is not None else None
+            mode = None
+            if dc is not None and call_matches(dc[1], r"then_some$"):
+                tb, tt = dc
+                payload_ok = is_seg_payload(tt["args"][1])
+                flag = op_base(tt["args"][0])
+                for _ in range(3):
+                    ds = [s_["rv"] for b_, i_, s_ in f.stmts() if s_["k"] == "a" and s_["lhs"] == {"l": flag}]
+                    if len(ds) == 1 and ds[0]["k"] == "use" and ds[0]["o"]["k"] in ("copy", "move") and not ds[0]["o"]["p"].get("p"):
+                        flag = ds[0]["o"]["p"]["l"]
+                    else:
+                        break
+                mode = ("value_at", tb, flag)
+            else:
+                # `if flag { Some(segment_size) } else { None }`: the blocks that build the Some
+                chain = set()
+                work = [fl_local]
+                while work:
+                    cur = work.pop()
+                    if cur is None or cur in chain:
+                        continue
+                    chain.add(cur)
+                    for b_, i_, s_ in f.stmts():
+                        if s_["k"] == "a" and s_["lhs"] == {"l": cur} and s_["rv"]["k"] == "use" and s_["rv"]["o"]["k"] in ("copy", "move") and not s_["rv"]["o"]["p"].get("p"):
+                            work.append(s_["rv"]["o"]["p"]["l"])
+                somes = [(b_, s_) for b_, i_, s_ in f.stmts() if s_["k"] == "a" and s_["lhs"].get("l") in chain and not s_["lhs"].get("p") and s_["rv"]["k"] == "agg" and s_["rv"].get("variant") == "Some"]
+                nones = [(b_, s_) for b_, i_, s_ in f.stmts() if s_["k"] == "a" and s_["lhs"].get("l") in chain and not s_["lhs"].get("p") and s_["rv"]["k"] == "agg" and s_["rv"].get("variant") == "None"]
+                if somes and nones:
+                    payload_ok = all(is_seg_payload(s_["rv"]["ops"][0]) for b_, s_ in somes)
+                    tb = somes[0][0]
+                    mode = ("target", {b_ for b_, s_ in somes}, None)
+            if mode is None:
+                rep.ob("result-seg", False, site(f, b), "the result's segment_size is neither `flag.then_some(segment_size)` nor `if flag { Some(segment_size) } else { None }` (unrecognised idiom, fails closed)", skey(F, f, "batch-flag"))
                 continue
-            tb, tt = dc
-            payload = copy_sources(f, op_base(tt["args"][1]))
-            rep.ob("result-seg", bool(payload) and all(y[0] == "arg" and y[1] == 1 and tuple(y[2])[:1] == ("segment_size",) for y in payload), site(f, tb), "a batch result carries self's segment size", skey(F, f, "batch-payload"))
-            flag = op_base(tt["args"][0])
-            # follow a plain copy of the flag
-            fl = flag
-            for _ in range(3):
-                ds = [s_["rv"] for b_, i_, s_ in f.stmts() if s_["k"] == "a" and s_["lhs"] == {"l": fl}]
-                if len(ds) == 1 and ds[0]["k"] == "use" and ds[0]["o"]["k"] in ("copy", "move") and not ds[0]["o"]["p"].get("p"):
-                    fl = ds[0]["o"]["p"]["l"]
-                else:
-                    break
+            rep.ob("result-seg", payload_ok, site(f, tb), "a batch result carries self's segment size", skey(F, f, "batch-payload"))
             try:
-                paths = booltab.extract(f, start=st["t"], value_at=(tb, fl))
+                if mode[0] == "value_at":
+                    paths = booltab.extract(f, value_at=(mode[1], mode[2]))
+                else:
+                    paths = booltab.extract(f, target=mode[1])
                 bad = []
                 for n_gt1 in (False, True):
-                    for rel in ("lt", "eq", "gt"):
-                        if not n_gt1 and rel == "gt":
-                            continue        # taken.len() <= 1 * segment_size
+                    for rw in ("lt", "eq", "gt"):
                         for rr in ("lt", "eq", "gt"):
-                            got = booltab.evaluate(paths, mk_value_of(n_gt1, rel, rr))
-                            if got != (rel == "gt"):
-                                bad.append("n%s, taken %s segment -> %s" % (">1" if n_gt1 else "=1", {"lt": "<", "eq": "=", "gt": ">"}[rel], "Some" if got else "None"))
-                rep.ob("result-seg", not bad, site(f, tb), "the result carries a segment size exactly when it holds more than one datagram (taken.len() > segment_size); mismatches: %s" % sorted(set(bad)), skey(F, f, "batch-flag"))
+                            vo = mk_value_of(n_gt1, rw, rr)
+                            got = booltab.evaluate(paths, vo)
+                            if got != (vo.rel_taken == "gt"):
+                                bad.append("n%s, batch %s one segment (taken %s) -> %s" % (">1" if n_gt1 else "=1", {"lt": "<", "eq": "=", "gt": ">"}[rw], {"lt": "<", "eq": "=", "gt": ">"}[vo.rel_taken], "Some" if got else "None"))
+                rep.ob("result-seg", not bad, site(f, tb), "the result carries a segment size exactly when it holds more than one datagram (taken.len() > segment_size, with taken = min(n * segment_size, batch)); mismatches: %s" % sorted(set(bad)), skey(F, f, "batch-flag"))
             except Unsupported as e:
                 rep.ob("result-seg", False, site(f, tb), "flag logic not extractable (fails closed): %s" % e, skey(F, f, "batch-flag"))
         # ---- remainder invariant
